@@ -323,13 +323,31 @@ def c01(ck):
     wf = ck.wd("work.ndjson")
     write_ndjson(wf, work)
     j = judge(ck, "Trace_Work", wf)
+    noisy = []
     for rej in j.rejects:
         r = work[rej[0] - 1]
+        if r["k"] == "SCALE" and not r["died"] and not r["timed_out"]:
+            # a verdict that rests on a measured time is confirmed before it is reported: the family is measured again three
+            # times, one scenario at a time (noise only ever adds time); it is a violation only if every measurement is rejected
+            confirmed = True
+            for k in range(3):
+                cf = ck.wd("scale_confirm.ndjson")
+                vh_json(["scale", "--out", cf, "--shapes", r["shape"], "--workers", "1"] + (["--base", "50000"] if ck.tier == "thorough" else []), timeout=1800)
+                again = [x for x in read_ndjson(cf) if x["api"] == r["api"]]
+                jf = ck.wd("scale_confirm_work.ndjson")
+                write_ndjson(jf, again)
+                if not judge(ck, "Trace_Work", jf, name="scale_confirm").rejects:
+                    confirmed = False
+                    break
+            if not confirmed:
+                noisy.append({"shape": r["shape"], "api": r["api"], "t1us": r["t1us"], "t2us": r["t2us"]})
+                continue
         if r["k"] == "SCALE":
             ck.violation("scale:%s:%s" % (r["shape"], r["api"]), "input family %s through %s: %d characters took %d us of CPU time, %d characters %s — %s" % (
                 r["shape"], r["api"], r["len1"], r["t1us"], r["len2"], ("more than %d ms (stopped)" % r["limit_ms"]) if r["timed_out"] else ("%d us" % r["t2us"]), rej[1]), r)
         else:
             ck.violation("work:" + json.dumps(r["t"]), "input of length %d needed %d input operations (bound %s): %s" % (r["len"], r["work"], "64(len+1)+256", rej[1]), r)
+    ck.extra["scaling_measurements_not_confirmed"] = noisy
     work = [r for r in work if r["k"] == "WORK"]
     ck.extra["worst_ops_per_char"] = round(s["worst_ratio"], 2)
     ck.extra["lengths_judged"] = len(work)
